@@ -179,6 +179,10 @@ BOUNDARY = {
     "Z": ["a b", " ", "a\tb", "\u00e9", "~!@#$%^&*()"],
     "pos2": ["0", "10", "10$", "0$", "$", "10$$", "-1", "+1", "1e1", "010"],
     "slen": ["0", "10", "010", "+10", "-10", "10$", "1e1"],
+    "seglist1": ["a+,*b-", "a+,=b-", "*a+", "=a+,b-", "a+,b", "a+,b-,", ",a+", "a+ b-", "a+,b-,c+", "a+,a-", "a", "+", "a+,+"],
+    "reflist2": ["a+ *b-", "a+ b", "a+  b-", " a+", "a+ ", "a+ b- c+", "a+,b-", "*+", "a"],
+    "idlist2": ["a b", "a  b", " a", "a ", "a,b", "*", "a *"],
+    "name1": ["*a", "=a", "a*", "a=", "a+,b", "a-,b", "a,b", "a+", "+a", "a b", "a\tb"],
     "cigar1": ["10M", "0M", "1M1M", "1=1X1N1S1H1P", "M", "1", "1m", "1M,", "*", "**", "1*"],
     "aln2": ["10M", "1=", "1X", "1N", "1S", "1H", "1P", "1,2,3", "1,,2", "1,2,", "0", "*", "1M2"],
 }
